@@ -15,6 +15,7 @@ import (
 	"os"
 	"regexp"
 	"strconv"
+	"strings"
 	"testing"
 
 	"github.com/ossrs/go-oryx-lib/logger"
@@ -280,12 +281,51 @@ func run(p *kernel.Plan) (res *kernel.Result) {
 		perTask[x.task] = append(perTask[x.task], x)
 	}
 	type parsed struct{ label, pid, cid, msg string }
+	// '<level label><timestamp> [pid][cid] message\n'; the timestamp's own format
+	// is not prescribed, so it is whatever lies between the label and '[pid]'
 	parse := func(b []byte) (parsed, bool) {
-		m := lineRe.FindSubmatch(b)
-		if m == nil {
+		s := string(b)
+		if !strings.HasSuffix(s, "\n") || strings.Count(s, "\n") != 1 {
 			return parsed{}, false
 		}
-		return parsed{string(m[1]), string(m[2]), string(m[3]), string(m[4])}, true
+		s = s[:len(s)-1]
+		var pl parsed
+		for _, l := range []string{"info", "trace", "warn", "error"} {
+			if strings.HasPrefix(s, "["+l+"] ") {
+				pl.label = l
+				s = s[len(l)+3:]
+			}
+		}
+		if pl.label == "" {
+			return parsed{}, false
+		}
+		i := strings.Index(s, "["+pid+"]")
+		if i < 0 {
+			// no pid prefix at all (allowed only for a context without id): the
+			// rest after the timestamp is the message
+			if m := lineRe.FindSubmatch(b); m != nil {
+				pl.msg = string(m[4])
+				return pl, true
+			}
+			pl.msg = s
+			return pl, true
+		}
+		if i == 0 || strings.ContainsAny(s[:i], "[]") {
+			return parsed{}, false // timestamp missing or malformed
+		}
+		pl.pid = pid
+		s = s[i+len(pid)+2:]
+		if strings.HasPrefix(s, "[") {
+			j := strings.Index(s, "]")
+			if j > 1 {
+				if _, err := strconv.Atoi(s[1:j]); err == nil {
+					pl.cid = s[1:j]
+					s = s[j+1:]
+				}
+			}
+		}
+		pl.msg = strings.TrimLeft(s, " ")
+		return pl, true
 	}
 	// learn every context's id now, sequentially, from the main goroutine
 	w.writes = nil
